@@ -31,16 +31,22 @@ def rewrite_lines(
     found_patterns: typ.Set[Pattern] = set()
 
     new_lines = old_lines[:]
+    replacements: typ.Dict[int, typ.List[typ.Tuple[typ.Tuple[int, int], str]]] = {}
     for match in parse.iter_matches(old_lines, patterns):
         found_patterns.add(match.pattern)
         normalized_pattern = v2patterns.normalize_pattern(
             match.pattern.version_pattern, match.pattern.raw_pattern
         )
         replacement = v2version.format_version(new_vinfo, normalized_pattern)
-        span_l, span_r = match.span
-        new_line = match.line[:span_l] + replacement + match.line[span_r:]
-        new_lines[match.lineno] = new_line
+        replacements.setdefault(match.lineno, []).append((match.span, replacement))
         _verif.emit("rewrite.match", lineno=match.lineno, span=match.span, pattern=match.pattern.raw_pattern, replacement=replacement)
+
+    # several patterns may match on one line: apply the replacements of a line right to left
+    for lineno, line_replacements in replacements.items():
+        new_line = old_lines[lineno]
+        for (span_l, span_r), replacement in sorted(line_replacements, reverse=True):
+            new_line = new_line[:span_l] + replacement + new_line[span_r:]
+        new_lines[lineno] = new_line
 
     if set(patterns) == found_patterns:
         return new_lines
